@@ -715,12 +715,17 @@ class Unit:
         """self == other"""
         if isinstance(other, Unit):
             if self.qty_cls is other.qty_cls:
-                if self._equiv is None:
-                    assert other._equiv is None
-                    return self is other
-                else:
-                    assert other._equiv is not None
-                    return self._equiv == other._equiv
+                if self._qty_cls.ref_unit is None:
+                    # no common reference: units are equal if they denote
+                    # the same multiple of the same base units
+                    if self._definition is None and \
+                            other._definition is None:
+                        return self is other
+                    return (self.normalized_definition ==
+                            other.normalized_definition)
+                assert self._equiv is not None
+                assert other._equiv is not None
+                return self._equiv == other._equiv
         return False
 
     def _compare(self, other: Any, op: CmpOpT) -> bool:
@@ -878,11 +883,12 @@ class Unit:
                 if self is other:
                     amnt = ONE
                 else:
-                    if self._equiv is None or other._equiv is None:
+                    factor = self._get_factor(other)
+                    if factor is None:
                         raise UnitConversionError(
                             "Can't devide '%s' and '%s'.", self, other) \
                             from None
-                    amnt = self._equiv / other._equiv
+                    amnt = factor
             else:
                 res_def = UnitDefT(((self, 1), (other, -1)))
                 try:
@@ -956,7 +962,20 @@ class Unit:
         if isinstance(other, Unit):
             if self.qty_cls is other.qty_cls:
                 if qty_cls.ref_unit is None:
-                    return None
+                    # a factor exists only between multiples of the same
+                    # base units
+                    if self._definition is None and \
+                            other._definition is None:
+                        return None
+                    self_def = self.normalized_definition
+                    other_def = other.normalized_definition
+                    self_num = self_def.num_elem
+                    other_num = other_def.num_elem
+                    if self_def.items[self_num is not None:] != \
+                            other_def.items[other_num is not None:]:
+                        return None
+                    return (ONE if self_num is None else self_num) / \
+                        (ONE if other_num is None else other_num)
                 assert self._equiv is not None
                 assert other._equiv is not None
                 return self._equiv / other._equiv
